@@ -427,21 +427,11 @@ end Proofs.Generator
 namespace Proofs.Generator
 open Py Xs.Ns Xs.Sax Xs.Writer Spec.XmlNs Spec.EventTree Proofs.MapInv Proofs.Flush Proofs.Resolve Proofs.TreeWriter Spec.Hyps Proofs.Attrs
 
-theorem getLast?_mem_of_some (x : Str) (c : Char) (h : x.getLast? = some c) : c ∈ x := by
-  exact List.mem_of_getLast? h
-
 theorem pStep_text (f : Frame) (st : List Frame) (root : Option Node) (x : Str)
-    (hx : xmlChars x = true) (hcr : noCR x) (hne : x.isEmpty = false) :
+    (hx : xmlChars x = true) (hne : x.isEmpty = false) :
     pStep ⟨f :: st, root, false⟩ (Tok.text x)
       = some ⟨{ f with kidsRev := addText x f.kidsRev } :: st, root, false⟩ := by
-  have hl : (x.getLast? == some '\r') = false := by
-    cases h : x.getLast? with
-    | none => rfl
-    | some c =>
-      have hc : c ≠ '\r' := fun e => hcr (e ▸ getLast?_mem_of_some x c h)
-      simp [hc]
-  have hn : normEol x = x := normEol_noCR x hcr
-  simp [pStep, hx, addChunk, eolChunk, hn, hne, hl]
+  simp [pStep, hx, hne]
 
 /-- L2 for the content of a flushed element -/
 def L2c (env : NsEnv) (d : Option Str) (c : Content) : Prop :=
@@ -548,30 +538,25 @@ theorem l2_content_data (env : NsEnv) (henv : EnvOK env) (d : Option Str) (v : V
         · simp only [hx, if_true] at h
           exact skip cs h
         · have hxe : x.isEmpty = false := by simpa using hx
-          simp only [hxe, Bool.false_eq_true, if_false] at h
-          cases it with
-          | true => simp at h
-          | false =>
-            simp only [Bool.false_eq_true, if_false, Option.map_eq_some_iff] at h
-            obtain ⟨r, hr, rfl⟩ := h
-            have hxx := hxml x rfl
-            have hcr := encodeData_noCR env henv d v M' hM hv x M' he
-            obtain ⟨toks, pend', K, hg, _, h2, hp, hs⟩ :=
-              ih M' true r hr hokk gctxs gcur none { f with kidsRev := addText x f.kidsRev } st root
-                { sf with kidsRev := addText x sf.kidsRev } sst sroot hM hK hS (by simp [hk])
-            have hpend : pend' = none := by
-              by_cases ht : toks = []
-              · subst ht; simp_all
-              · exact h2 ht
-            subst hpend
-            refine ⟨Tok.text x :: toks, none, K, ?_, by simp, fun _ => rfl, ?_, ?_⟩
-            · simp only [gRun, gStep, hxe, Bool.false_eq_true, if_false]
-              rw [hg]
-              rfl
-            · rw [pRun_cons_ok _ _ _ _ (pStep_text f st root x hxx hcr hxe)]
-              exact hp
-            · simp only [sRun, sStep]
-              exact hs
+          simp only [hxe, Bool.false_eq_true, if_false, Option.map_eq_some_iff] at h
+          obtain ⟨r, hr, rfl⟩ := h
+          have hxx := hxml x rfl
+          obtain ⟨toks, pend', K, hg, _, h2, hp, hs⟩ :=
+            ih M' true r hr hokk gctxs gcur none { f with kidsRev := addText x f.kidsRev } st root
+              { sf with kidsRev := addText x sf.kidsRev } sst sroot hM hK hS (by simp [hk])
+          have hpend : pend' = none := by
+            by_cases ht : toks = []
+            · subst ht; simp_all
+            · exact h2 ht
+          subst hpend
+          refine ⟨Tok.text x :: toks, none, K, ?_, by simp, fun _ => rfl, ?_, ?_⟩
+          · simp only [gRun, gStep, hxe, Bool.false_eq_true, if_false]
+            rw [hg]
+            rfl
+          · rw [pRun_cons_ok _ _ _ _ (pStep_text f st root x hxx hxe)]
+            exact hp
+          · simp only [sRun, sStep]
+            exact hs
 
 end Proofs.Generator
 
@@ -587,7 +572,7 @@ theorem elem_wrap (env : NsEnv) (henv : EnvOK env) (d : Option Str) (isNil : Boo
     (hroot : st = [] → root = none) (hsroot : sst = [] → sroot = none)
     (pre : List Call) (inner : List Call)
     -- `pre` is what is written between the start tag and the content proper (at most one text chunk)
-    (hpre : pre = [] ∨ ∃ x, pre = [Call.chars x] ∧ xmlChars x = true ∧ noCR x ∧ x.isEmpty = false)
+    (hpre : pre = [] ∨ ∃ x, pre = [Call.chars x] ∧ xmlChars x = true ∧ x.isEmpty = false)
     (hinner : ∀ (gctxs' : List (List (Str × Pfx))) (gcur' : List (Str × Pfx)) (gpend' : Option Str)
         (f : Frame) (sf : SFrame),
         MapOK env d (flushed env isNil base tag A (base ++ Y)).map →
@@ -614,13 +599,13 @@ theorem elem_wrap (env : NsEnv) (henv : EnvOK env) (d : Option Str) (isNil : Boo
         = .ok (tpre, ⟨pushCtxs gcur gctxs decls, applyCur gcur decls, [], pend1⟩) ∧
       pRun ⟨⟨w, tag, vs, [], scope'⟩ :: st, root, false⟩ tpre = some ⟨⟨w, tag, vs, K1, scope'⟩ :: st, root, false⟩ ∧
       sRun (⟨tag, vs, []⟩ :: sst, sroot) pre = some (⟨tag, vs, K1⟩ :: sst, sroot) := by
-    rcases hpre with h | ⟨x, h, hx, hcr, hne⟩
+    rcases hpre with h | ⟨x, h, hx, hne⟩
     · subst h
       exact ⟨[], some w, [], Or.inl rfl, rfl, rfl, rfl⟩
     · subst h
       refine ⟨[Tok.text x], none, addText x [], Or.inr rfl, ?_, ?_, ?_⟩
       · simp [gRun, gStep, hne]
-      · have := pStep_text ⟨w, tag, vs, [], scope'⟩ st root x hx hcr hne
+      · have := pStep_text ⟨w, tag, vs, [], scope'⟩ st root x hx hne
         simp [pRun, this]
       · simp [sRun, sStep]
   obtain ⟨tpre, pend1, K1, hp1, hg1, hpp1, hs1⟩ := hmid
@@ -678,15 +663,14 @@ theorem l2_body_data (env : NsEnv) (henv : EnvOK env) (d : Option Str) (v : Val)
     subst hv2; subst hm2
     obtain ⟨Y', hY'⟩ := ext_base base Y M3 hext
     subst hY'
-    have hpre : charsCalls val = [] ∨ ∃ x, charsCalls val = [Call.chars x] ∧ xmlChars x = true ∧ noCR x ∧ x.isEmpty = false := by
+    have hpre : charsCalls val = [] ∨ ∃ x, charsCalls val = [Call.chars x] ∧ xmlChars x = true ∧ x.isEmpty = false := by
       cases val with
       | none => exact Or.inl rfl
       | some x =>
         by_cases hx : x.isEmpty = true
         · exact Or.inl (by simp [charsCalls, hx])
         · have hxe : x.isEmpty = false := by simpa using hx
-          exact Or.inr ⟨x, by simp [charsCalls, hxe], hxml x rfl,
-            encodeData_noCR env henv d v (base ++ Y) hM hv x _ he, hxe⟩
+          exact Or.inr ⟨x, by simp [charsCalls, hxe], hxml x rfl, hxe⟩
     exact elem_wrap env henv d val.isNone base Y' tag A gctxs gcur gpend st root sst sroot hM3 hK hS hA
       (htag.ext hext) hroot hsroot (charsCalls val) r hpre
       (fun gctxs' gcur' gpend' f sf hMf hKf hSf hkf =>
